@@ -136,6 +136,7 @@ type srvScenario struct {
 	NoUnblock    bool   // Close does not unblock a pending Recv (like channel.Direct)
 	DeadCtxAt    int    `json:",omitempty"` // the n-th base context handed out by ServerOptions.NewContext has already ended (0 = never)
 	Restart      bool   // after WaitStatus, start the same server again and probe it
+	RestartCB    bool   // after WaitStatus, start the same server again and issue a callback while late replies to the first run's callbacks arrive
 }
 
 type gate struct {
@@ -693,9 +694,61 @@ func runServerScenario(t *testing.T, sc *srvScenario, pickFn func(n int) int, sk
 			c()
 		}
 		synctest.Wait()
-		if sc.Restart && r.Status != nil {
+		if (sc.Restart || sc.RestartCB) && r.Status != nil {
 			c2, s2 := newVPair()
 			r.srv.Start(s2)
+			if sc.RestartCB && sc.AllowPush {
+				// a callback of the new run, while the peer still answers callbacks of the previous run
+				// (late replies, each with the id its request carried): it must be completed by its OWN reply
+				r.hmu.Lock()
+				var stale []string
+				for _, id := range r.cbIDs {
+					stale = append(stale, id)
+				}
+				r.hmu.Unlock()
+				sort.Strings(stale)
+				done := make(chan string, 1)
+				go func() {
+					rsp, err := r.srv.Callback(context.Background(), "cbm", []string{"k77"})
+					if err != nil {
+						done <- "err:" + err.Error()
+					} else {
+						done <- "ok:" + rsp.ResultString()
+					}
+				}()
+				synctest.Wait()
+				newID := ""
+				for _, b := range c2.in.drain() {
+					var push struct {
+						ID     json.RawMessage `json:"id"`
+						Method string          `json:"method"`
+					}
+					if json.Unmarshal(b, &push) == nil && push.Method == "cbm" {
+						newID = string(push.ID)
+					}
+				}
+				for _, id := range stale {
+					c2.Send([]byte(`{"jsonrpc":"2.0","id":` + id + `,"result":"stale"}`))
+					synctest.Wait()
+				}
+				if newID != "" {
+					c2.Send([]byte(`{"jsonrpc":"2.0","id":` + newID + `,"result":"fresh"}`))
+				}
+				synctest.Wait()
+				select {
+				case got := <-done:
+					r.logf("restart-cb id=%s stale=%s %s", newID, strings.Join(stale, ","), got)
+				default:
+					r.logf("restart-cb id=%s stale=%s pending", newID, strings.Join(stale, ","))
+				}
+			}
+			if !sc.Restart {
+				c2.Close()
+				st2 := r.srv.WaitStatus()
+				r.logf("restart-status %s closes=%d", statusText(st2), s2.st.closes.Load())
+				synctest.Wait()
+				return
+			}
 			// the new run starts from a clean slate: ids that were in use (or in flight) in the first
 			// run are as good as a fresh one
 			c2.Send([]byte(reqBatch(reqCall(1, "c771", "ok"), reqCall(2, "c772", "ok"), reqCall(3, "c773", "ok"), reqCall(4, "c774", "ok"), reqCall(5, "c775", "ok"), reqCall(900, "c776", "ok"), reqCall(901, "c778", "ok"), reqCall(777, "c777", "ok"))))
